@@ -814,7 +814,7 @@ func init() {
 	Registry["C14"] = func(c *Ctx) {
 		c.R.Rule = "breadth-first search over histories of <= n operations from {destroy / break the externally checked condition of //p:w, make //p:y exit non-zero | exceed its timeout | not create its declared output, edit, grog build} by the REAL binary; reference model: success is reported and cached only if exit 0 within the timeout, outputs exist and checks pass; a cached result with a now-failing output check forces execution; a check still failing after execution fails the build and caches nothing (the follow-up build attempts the target again). Non-trivial = a build that executed some but not all targets."
 		c.R.Assume("the checked condition is an external marker outside the declared inputs/outputs", "timeout mode uses timeout=1s against a 30 s sleep; wall-clock enters only through grog's own timeout handling, never through the oracle")
-		chainCheck("C14", []string{"C14:", "C05:failed-target-not-attempted-again"}, 5, 6, func(e *chainEngine, thorough bool) {
+		chainCheck("C14", []string{"C14:", "C05:failed-target-not-attempted-again", "C04:build-hangs"}, 5, 6, func(e *chainEngine, thorough bool) {
 			e.universes = []chainState{{}, {Minimal: true}}
 			e.ops = []chainOp{markOp("w-destroyed"), markOp("w-broken"), markOp("fail-y-exit"), markOp("fail-y-noout"), opEditFirst, opBuild}
 			if thorough {
